@@ -17,7 +17,8 @@ EXPLANATION = (
     "{version != 1 -> VersionMismatch, non-UTF-8 -> InvalidQuery, raw-binary/unknown query format -> InvalidQuery, unknown path "
     "-> MethodNotFound}; handler errors are reported with err.to_error_code(); RepeError::to_error_code agrees with the frozen "
     "table. (transport-twins) dispatch and dispatch_view have identical decision rows under the twin renaming. Arrival order of "
-    "inline responses: no spawn between read and write in the TCP loops (C05) and one FIFO + one writer on WebSocket. Not "
+    "inline responses: no spawn between read and write in the TCP loops (C05) and one FIFO + one writer on WebSocket. "
+    "(response-flushed) in both TCP loops every path from a response write to the next blocking read crosses writer.flush(). Not "
     "decided: enumeration of pipelined sequences; per-handler-kind agreement is C07."
 )
 ASSUMPTIONS = ["tokio mpsc channels are FIFO", "a `dyn HandlerErased` call runs the handler body once"]
@@ -137,7 +138,15 @@ def run(facts, R):
             qarg = s.op(t["args"][2])
             ok = is_call(qarg, "message::response_echo_query") and render(qarg[2][1]).endswith(".query") and "from_slice" in render(qarg[2][1]) and "route_request_view" in render(qarg[2][0])
             R.check(ok, "echo-rule", path, "writes response_echo_query(resp, view.query)", "query written is %s" % render(qarg)[:200], t.get("span"), "echo of this request's query")
-        # None -> nothing written: the loop head is reachable from the None edge without a write
+        # response-flushed: a written response is flushed before the loop blocks on the next request (or succeeds/ends)
+        flushes = [term_pt(b, i) for i, t in b.calls() if t["callee"]["name"] == "flush"]
+        oks = [(x, y) for x, y, st in blocks_assigning_variant(b, "std::result::Result", "Ok")]
+        for i, t in wr:
+            w = must_cross(b, [term_pt(b, i)], [term_pt(b, r) for r in reads], flushes)
+            R.check(bool(flushes) and w is None, "response-flushed", path, "response flushed before the next read",
+                    "after a response is written into the connection's BufWriter the loop can block on the next request (or end) without "
+                    "flushing it: a request followed only by notifies / an idle client never receives its response", t.get("span"),
+                    "every path write -> next read crosses writer.flush()", path=w)
     if has_ws:
         ws_reader(facts, R)
 
